@@ -26,6 +26,8 @@ func genSrvCfg(r *Rand, c *Case, tier string) {
 	// does); connections of one server need not speak the same dialect
 	c.Cfg["sharedir"] = int64(r.Pick(0, 0, 1))
 	c.Cfg["dotu_other"] = int64(r.Pick(0, 0, 1))
+	// ... or give all its late answers from one event-loop goroutine of its own
+	c.Cfg["dispatcher"] = int64(r.Pick(0, 0, 1))
 }
 
 func effMsize(c *Case) int {
